@@ -358,8 +358,13 @@ type matrixCase struct {
 	Series  []mSeries `json:"series"`
 }
 
-var floatPool = []string{"1", "2", "0.5", "0", "-0", "-1", "100", "1e21", "123456789012345680000000", "1e-7", "5e-324", "1.7976931348623157e308",
-	"0.1", "0.30000000000000004", "3.0000000000000004", "16.666666666666668", "NaN", "+Inf", "-Inf", "4503599627370497"}
+// floatPool: integral values below and above 2^53 and 2^63, 1e19, 1.5e300, MaxFloat64,
+// the smallest subnormal and normal numbers, negative zero, +-Inf, NaN, long fractions.
+var floatPool = []string{"1", "2", "0.5", "0", "-0", "-1", "100", "1e21", "123456789012345680000000", "1e-7", "-1e-9", "5e-324", "1e-323",
+	"2.2250738585072014e-308", "1.7976931348623157e308", "-1.7976931348623157e308", "1.5e300", "1e19", "18446744073709551616",
+	"9007199254740991", "9007199254740992", "9007199254740994", "-9007199254740993", "9223372036854775807", "9223372036854775808", "9223372036854777856",
+	"0.1", "0.30000000000000004", "3.0000000000000004", "16.666666666666668", "3.141592653589793", "1.0000000000000002", "123456.78901234567",
+	"0.000001234567890123", "NaN", "+Inf", "-Inf", "4503599627370497"}
 
 func genFloat(rt *rapid.T) string {
 	if rapid.IntRange(0, 2).Draw(rt, "fpool") == 0 {
@@ -504,7 +509,7 @@ func sameFloat(a, b float64) bool {
 	if math.IsNaN(a) || math.IsNaN(b) {
 		return math.IsNaN(a) && math.IsNaN(b)
 	}
-	return a == b
+	return math.Float64bits(a) == math.Float64bits(b) // -0 is not 0
 }
 
 func checkPoint(pair []any, want point, instant bool) error {
